@@ -3,9 +3,11 @@
    The model is the parser after the fixes F1, F2, F3, F9, F10 (see Model/Lines.v, Model/Parser.v); every
    panic site of the Go code is an explicit [Crash] of the model, so "never Crash" is "no reachable panic".
    render_errors_total is C10_renderings_total (Properties/C10.v). evaluate_total is proved for the commands
-   listed at C06_evaluate_total_partial. *)
+   listed at C06_evaluate_total_partial, C06_json_total (klog json) and C06_now_no_crash (the --now variants). *)
 From Klog Require Import Base.Prelude Base.Utf8 Model.Record Model.Lines Model.Parser Proofs.Lines Proofs.Parser.
 From Klog Require Import Model.Calendar Model.Eval Model.Tags Model.Report Proofs.Eval Proofs.Report Proofs.ParserEval.
+From Klog Require Import Model.JsonView Proofs.JsonView Proofs.ParserEvalNow.
+From Coq Require Import Lia.
 Open Scope nat_scope.
 
 (* lines[0] of a block always exists: parse() does not panic on any block the splitter produces *)
@@ -57,9 +59,9 @@ Print Assumptions C06_evaluate_guards_exact.
    (Model/Report.v; `today` needs 1439 minutes of head room for the end-time forecast); `klog tags`
    (Model/Tags.v go_aggregate_o). `klog print` (Model/Serialiser.v print_records : list record -> bytes) has no
    panic site at all: it is a total function by construction, there is nothing to prove.
-   PARTIAL — not covered: the --now variants (closing open ranges can fail; C02_close_first_day_refuted),
-   filters and --period arguments (C13/C15), `klog json` (Model/JsonView.v has no no-crash lemma yet),
-   the terminal layout of the tables. *)
+   `klog json` is C06_json_total and the --now variants of total / report / today are C06_now_no_crash, below.
+   PARTIAL — not covered: filters and --period arguments (C13/C15), the terminal layout of the tables,
+   --now on 0000-01-01 (the Go code panics there: C02_close_first_day_refuted). *)
 Theorem C06_evaluate_total_partial : forall (s : bytes) (rs : list record) (bs : list block),
   parse_text s = Ok (Parsed rs bs) -> (gsize rs <= max_int64)%Z ->
   (total rs = Ok (spec_total rs) /\ should_total_sum rs = Ok (spec_should rs) /\
@@ -88,6 +90,114 @@ Print Assumptions C06_evaluate_total_refuted.
 Example C06_evaluate_nonvacuous :
   exists rs bs, parse_text example_text = Ok (Parsed rs bs) /\ gsize rs = 60%Z /\ total rs = Ok 60%Z.
 Proof. eexists _, _. split; [vm_compute; reflexivity|]. split; vm_compute; reflexivity. Qed.
+
+(* ---- klog json ---- *)
+
+(* `klog json [--pretty] file` (Model/JsonView.v to_json; C20 says what the document is): for every text the parser
+   accepts, under the same guard, every record fits (record_fits is the exact condition under which the totals of a
+   record do not overflow: C20_overflow_guard) and the command prints its document. The records need not even come
+   from the parser. A file with syntax errors (second half) needs no guard: the document of its errors is printed. *)
+Theorem C06_json_total : forall (s : bytes) (file : bytes) (pretty : bool),
+  (forall rs bs, parse_text s = Ok (Parsed rs bs) -> (gsize rs <= max_int64)%Z ->
+     forallb record_fits rs = true /\
+     to_json file (Parsed rs bs) pretty = Ok (print_doc pretty (document [(file, Parsed rs bs)])) /\
+     exists out, to_json file (Parsed rs bs) pretty = Ok out) /\
+  (forall es, parse_text s = Ok (Failed es) ->
+     to_json file (Failed es) pretty = Ok (print_doc pretty (document [(file, Failed es)])) /\
+     exists out, to_json file (Failed es) pretty = Ok out).
+Proof. exact evaluate_json_both. Qed.
+Print Assumptions C06_json_total.
+
+(* several files: the guard on all records together *)
+Theorem C06_json_inputs_total : forall inputs pretty, (gsize (all_records inputs) <= max_int64)%Z ->
+  to_json_inputs inputs pretty = Ok (print_doc pretty (document inputs)).
+Proof. exact to_json_inputs_guard. Qed.
+Print Assumptions C06_json_inputs_total.
+
+(* non-vacuity: now_text (two records, one closed range, two open ranges, a should-total) and example_faulty *)
+Example C06_json_nonvacuous :
+  (exists rs bs out, parse_text now_text = Ok (Parsed rs bs) /\ gsize rs = 555%Z /\
+     to_json (b!"a.klg") (Parsed rs bs) true = Ok out /\ length out = 1379) /\
+  (exists es out, parse_text example_faulty = Ok (Failed es) /\ to_json (b!"a.klg") (Failed es) false = Ok out /\
+     length out = 1132).
+Proof.
+  split.
+  - eexists _, _, _. split; [vm_compute; reflexivity|]. split; [vm_compute; reflexivity|].
+    split; [vm_compute; reflexivity|]. vm_compute; reflexivity.
+  - eexists _, _. split; [vm_compute; reflexivity|]. split; [vm_compute; reflexivity|]. vm_compute; reflexivity.
+Qed.
+
+(* ---- the --now variants ---- *)
+
+(* `klog total --now`, `klog report --now`, `klog today --now` at the instant (today, h:m), for every text the parser
+   accepts. Hypotheses: a valid clock reading; today has a day before it (on 0000-01-01 the Go code panics:
+   C02_close_first_day_refuted); the guard with head room — closing an open range makes it a range of at most
+   2879 - (-1440) = 4319 minutes, and only the first open range of a record is closed (the parser allows at most one),
+   so 4319 minutes for every record that holds an open range
+   (open_records rs = number of such records <= length rs; Proofs/ParserEvalNow.v now_guard_of_length).
+   Then: CloseOpenRanges returns the closed records or the ordinary error EUncloseable (an open range that is not of
+   today or yesterday, or starts after the instant), never a panic; in the first case the size of the closed records is
+   known exactly and the three views return (today with the 1439 minutes of head room of its end-time forecast);
+   in the second case the three views end with that error. Nothing is left open for total / report / today;
+   --now combined with filters is not covered (as without --now). *)
+Theorem C06_now_no_crash : forall (s : bytes) (rs : list record) (bs : list block) (today y : cdate) (h m : Z),
+  parse_text s = Ok (Parsed rs bs) -> valid_clock h m -> plus_days today (-1) = Ok y ->
+  (gsize rs + 4319 * open_records rs <= max_int64)%Z ->
+  ((exists rs', close_open_ranges today h m rs = Ok rs') \/ close_open_ranges today h m rs = Err EUncloseable) /\
+  (forall c, close_open_ranges today h m rs <> Crash c) /\
+  (forall rs', close_open_ranges today h m rs = Ok rs' ->
+     gsize rs' = (gsize rs + zsum (map (closing_gain today h m) rs))%Z /\
+     (gsize rs' <= gsize rs + 4319 * open_records rs)%Z /\
+     total_cmd true today h m rs =
+       Ok (spec_total rs', spec_should rs', (spec_total rs' - spec_should rs')%Z, Z.of_nat (length rs')) /\
+     (forall a fill df, exists v, report_cmd a fill df true today h m rs = Ok v) /\
+     ((gsize rs + 4319 * open_records rs + 1439 <= max_int64)%Z -> exists v, today_cmd true today h m rs = Ok v)) /\
+  (forall e, close_open_ranges today h m rs = Err e ->
+     e = EUncloseable /\ Exists (uncloseable today y h m) rs /\
+     total_cmd true today h m rs = Err e /\
+     (forall a fill df, report_cmd a fill df true today h m rs = Err e) /\
+     today_cmd true today h m rs = Err e).
+Proof. exact evaluate_now_no_crash. Qed.
+Print Assumptions C06_now_no_crash.
+
+(* the guard stated with the number of records implies the guard above *)
+Theorem C06_now_guard_of_length : forall (rs : list record) (k : Z),
+  (gsize rs + 4320 * Z.of_nat (length rs) + k <= max_int64)%Z ->
+  (gsize rs + 4319 * open_records rs + k <= max_int64)%Z.
+Proof. exact now_guard_of_length. Qed.
+Print Assumptions C06_now_guard_of_length.
+
+(* non-vacuity: now_text is
+     2019-12-31 / 22:15 - ?    and    2020-01-01 (8h!) / 6:00 - 7:00 / 8:00 - ? work / -15m ;
+   at 2020-01-01 9:30 both open ranges are closed (675 and 90 minutes): the total goes from 45 to 810 minutes and the
+   size from 555 to 1320; at 7:30 the range 8:00 - ? cannot be closed, nor can an open range of 2019-12-30 at any time
+   of 2020-01-01 *)
+Example C06_now_nonvacuous :
+  exists rs bs y, parse_text now_text = Ok (Parsed rs bs) /\ valid_clock 9 30 /\ plus_days now_today (-1) = Ok y /\
+    gsize rs = 555%Z /\ open_records rs = 2%Z /\ Z.of_nat (length rs) = 2%Z /\
+    (exists rs', close_open_ranges now_today 9 30 rs = Ok rs' /\ gsize rs' = 1320%Z) /\
+    total_cmd false now_today 9 30 rs = Ok (45, 480, -435, 2)%Z /\
+    total_cmd true now_today 9 30 rs = Ok (810, 480, 330, 2)%Z /\
+    (exists v, today_cmd true now_today 9 30 rs = Ok v /\ tv_all v = (810, 480, 330)%Z /\ tv_had_open v = true) /\
+    close_open_ranges now_today 7 30 rs = Err EUncloseable /\
+    total_cmd true now_today 7 30 rs = Err EUncloseable.
+Proof.
+  eexists _, _, _. split; [vm_compute; reflexivity|]. split; [unfold valid_clock; lia|].
+  split; [vm_compute; reflexivity|]. split; [vm_compute; reflexivity|]. split; [vm_compute; reflexivity|].
+  split; [vm_compute; reflexivity|]. split; [eexists; split; vm_compute; reflexivity|].
+  split; [vm_compute; reflexivity|]. split; [vm_compute; reflexivity|].
+  split; [eexists; split; [vm_compute; reflexivity|split; vm_compute; reflexivity]|].
+  split; vm_compute; reflexivity.
+Qed.
+
+Example C06_now_stale_nonvacuous :
+  exists rs bs, parse_text now_text_stale = Ok (Parsed rs bs) /\ open_records rs = 1%Z /\
+    forall h m, valid_clock h m -> close_open_ranges now_today h m rs = Err EUncloseable.
+Proof.
+  eexists _, _. split; [vm_compute; reflexivity|]. split; [vm_compute; reflexivity|].
+  intros h m Hv. unfold close_open_ranges. change (plus_days now_today (-1)) with (Ok {| c_year := 2019; c_month := 12; c_day := 31 |}).
+  rewrite (new_time_clock _ _ Hv). reflexivity.
+Qed.
 
 (* non-vacuity: both alternatives occur — example_text (invalid UTF-8, CRLF, lone CR, no final newline)
    parses to 2 records with 2 blocks, example_faulty to 5 errors *)
